@@ -208,6 +208,13 @@ Section Spec.
     | [] => false
     end.
 
+  (* `*`: try the rest of the pattern at every suffix of the string (never past a '/' in pathname mode) *)
+  Fixpoint star_loop (k : list N -> bool -> bool) (aft : N -> bool) (s1 : list N) (b : bool) : bool :=
+    k s1 b || match s1 with
+              | [] => false
+              | y :: s2 => negb (aft y) && star_loop k aft s2 false
+              end.
+
   (* --- GMATCH / EXTMATCH ------------------------------------------------------------------ *)
   (* [bos]: the string position is at the start of the string or just after a '/' (for FNM_PERIOD) *)
   Fixpoint gmatch (fuel : nat) (f : gflags) (p s : list N) (bos : bool) : bool :=
@@ -252,13 +259,7 @@ Section Spec.
             else if (c =? cSTAR) && star_then_lone_backslash p' then false
             else if c =? cSTAR then
               match s with
-              | x :: _ => if period_block x then false else
-                  (fix star (s1 : list N) (b : bool) {struct s1} : bool :=
-                     gmatch fuel' f p' s1 b ||
-                     match s1 with
-                     | [] => false
-                     | y :: s2 => negb (after y) && star s2 false
-                     end) s bos
+              | x :: _ => if period_block x then false else star_loop (gmatch fuel' f p') after s bos
               | [] => gmatch fuel' f p' [] bos
               end
             else if c =? cBSL then
@@ -294,3 +295,6 @@ Section Spec.
 End Spec.
 
 Definition no_wide (k : cls) (x : N) : bool := false.
+
+Definition f_plain : gflags := {| g_ext := false; g_nocase := false; g_pathname := false; g_period := false |}.
+Definition f_extglob : gflags := {| g_ext := true; g_nocase := false; g_pathname := false; g_period := false |}.
